@@ -600,7 +600,7 @@ func matchKnown(c Case, err error) string {
 	}
 	// a > inside a processing instruction ends it for the lexer of the dependency; the SVG minifier, which drops
 	// processing instructions, then drops everything up to the next ?> or the end of the input
-	if c.Kind == "svg" && strings.Contains(msg, "became malformed") && rePIWithGT.Match(c.src()) {
+	if (c.Kind == "svg" || c.Kind == "xml") && strings.Contains(msg, "became malformed") && rePIWithGT.Match(c.src()) {
 		return "C09-svg-pi-with-gt"
 	}
 	// invalid UTF-8: the lexer of the dependency takes a lead byte plus the following byte as one identifier
